@@ -1,5 +1,9 @@
 """Go-side value universe in Python: representation, canonical text, generators."""
 import struct
+import sys
+
+if hasattr(sys, "set_int_max_str_digits"):
+    sys.set_int_max_str_digits(0)
 
 # value = tuple(kind, ...):
 #   ('N',) ('Nil',) ('T',) ('F',) ('I', int) ('U', int) ('L', int) ('D', bits) ('Z', re, im)
